@@ -546,6 +546,81 @@ static void coopCase(Rng & rng, int force = 0) {   // force: 1 = well-formed arg
     stat("coop:" + err); stat("coop_tmode:" + std::to_string(tmode > 3 ? 4 : tmode)); if (nB) stat("coop_bmode:" + std::to_string(bmode > 3 ? 4 : bmode));
 }
 
+// ------------------------------------------------------------------------------------------ learned / factored models derived by the library
+//   C06 lm <file> <class> <op> <arg> <discount before> | <err> <discount after> <nrows> (len entries…)*
+template <class M> static void lmRowsFlat(Line & l, const M & m) {
+    const size_t S = m.getS(), A = m.getA();
+    l << S * A;
+    for (size_t s = 0; s < S; ++s) for (size_t a = 0; a < A; ++a) { l << S; for (size_t s1 = 0; s1 < S; ++s1) l << (double)m.getTransitionProbability(s, a, s1); }
+}
+template <class M> static void lmRowsCoop(Line & l, const M & m) {
+    const auto & tr = m.getTransitionFunction().transitions;
+    size_t n = 0; for (auto & t : tr) n += t.rows();
+    l << n;
+    for (auto & t : tr) for (long j = 0; j < t.rows(); ++j) { l << (size_t)t.cols(); for (long x = 0; x < t.cols(); ++x) l << (double)t(j, x); }
+}
+template <class M, class Rows, class Fn> static void lmOp(const char * file, const char * cls, const char * op, double arg, M & m, Rows rows, Fn && fn) {
+    Line l; l << "C06" << "lm" << file << cls << op << arg << m.getDiscount();
+    std::string err = guarded(fn);
+    l << "|" << err << m.getDiscount(); rows(l, m); l.emit();
+    stat(std::string("lm:") + op + ":" + err);
+}
+template <class M, class Make> static std::unique_ptr<M> lmCtor(const char * file, const char * cls, double d, Make && make) {
+    std::unique_ptr<M> m;
+    Line l; l << "C06" << "lm" << file << cls << "ctor" << d << 0.0;
+    std::string err = guarded([&] { m = make(d); });
+    l << "|" << err << (m ? m->getDiscount() : 0.0);
+    return (l << (size_t)0, l.emit(), stat(std::string("lm:ctor:") + err), std::move(m));
+}
+template <class E, class M> static void learnedFlat(Rng & rng, const char * file, const char * cls, bool hasSyncSA) {
+    size_t S = (size_t)rng.range(1, 4), A = (size_t)rng.range(1, 3);
+    E exp(S, A);
+    auto rec = [&] { exp.record(rng.below(S), rng.below(A), rng.below(S), verif::dyadicReward(rng)); };
+    for (int i = (int)rng.below(6); i > 0; --i) rec();
+    auto m = lmCtor<M>(file, cls, makeDiscount(rng, false), [&](double d) { if constexpr (std::is_constructible_v<M, const E &, double, bool>) return std::make_unique<M>(exp, d, rng.coin()); else return std::make_unique<M>(exp, d); });
+    if (!m) m = lmCtor<M>(file, cls, 0.75, [&](double d) { if constexpr (std::is_constructible_v<M, const E &, double, bool>) return std::make_unique<M>(exp, d, true); else return std::make_unique<M>(exp, d); });
+    auto rows = [](Line & l, const M & mm) { lmRowsFlat(l, mm); };
+    for (int i = (int)rng.range(3, 10); i > 0; --i) {
+        switch (rng.below(4)) {
+            case 0: { double d = makeDiscount(rng, false); lmOp(file, cls, "setDiscount", d, *m, rows, [&] { m->setDiscount(d); }); break; }
+            case 1: rec(); rec(); lmOp(file, cls, "record", 0.0, *m, rows, [&] {}); break;
+            case 2: lmOp(file, cls, "sync", 0.0, *m, rows, [&] { m->sync(); }); break;
+            case 3: { size_t s = rng.below(S), a = rng.below(A); exp.record(s, a, rng.below(S), 0.5);
+                      lmOp(file, cls, "syncSA", 0.0, *m, rows, [&] { if (hasSyncSA) m->sync(s, a); else m->sync(); }); break; }
+        }
+    }
+}
+template <class M> static void learnedCoop(Rng & rng, const char * file, const char * cls, bool mle) {
+    auto g = smallGraph();
+    FM::CooperativeExperience exp(g);
+    const auto & S = g.getS(); const auto & A = g.getA();
+    auto rec = [&] { F::State s(S.size()), s1(S.size()); F::Action a(A.size());
+        for (size_t q = 0; q < S.size(); ++q) { s[q] = rng.below(S[q]); s1[q] = rng.below(S[q]); }
+        for (size_t q = 0; q < A.size(); ++q) a[q] = rng.below(A[q]);
+        F::Rewards rw(S.size()); for (auto & x : rw) x = verif::dyadicReward(rng);
+        exp.record(s, a, s1, rw); };
+    for (int i = (int)rng.below(6); i > 0; --i) rec();
+    auto make = [&](double d) { if constexpr (std::is_constructible_v<M, const FM::CooperativeExperience &, double, bool>) return std::make_unique<M>(exp, d, rng.coin()); else return std::make_unique<M>(exp, d); };
+    auto m = lmCtor<M>(file, cls, makeDiscount(rng, false), make);
+    if (!m) m = lmCtor<M>(file, cls, 0.75, make);
+    auto rows = [](Line & l, const M & mm) { lmRowsCoop(l, mm); };
+    for (int i = (int)rng.range(3, 8); i > 0; --i) {
+        switch (rng.below(3)) {
+            case 0: { double d = makeDiscount(rng, false); lmOp(file, cls, "setDiscount", d, *m, rows, [&] { m->setDiscount(d); }); break; }
+            case 1: rec(); rec(); lmOp(file, cls, "record", 0.0, *m, rows, [&] {}); break;
+            case 2: lmOp(file, cls, "sync", 0.0, *m, rows, [&] { m->sync(); }); break;
+        }
+    }
+    (void)mle;
+}
+static void learnedCase(Rng & rng) {
+    learnedFlat<MDP::Experience, MDP::MaximumLikelihoodModel<MDP::Experience>>(rng, "include/AIToolbox/MDP/MaximumLikelihoodModel.hpp", "MaximumLikelihoodModel", true);
+    learnedFlat<MDP::SparseExperience, MDP::SparseMaximumLikelihoodModel<MDP::SparseExperience>>(rng, "include/AIToolbox/MDP/SparseMaximumLikelihoodModel.hpp", "SparseMaximumLikelihoodModel", true);
+    learnedFlat<MDP::Experience, MDP::ThompsonModel<MDP::Experience>>(rng, "include/AIToolbox/MDP/ThompsonModel.hpp", "ThompsonModel", true);
+    learnedCoop<FM::CooperativeMaximumLikelihoodModel>(rng, "src/Factored/MDP/CooperativeMaximumLikelihoodModel.cpp", "CooperativeMaximumLikelihoodModel", true);
+    learnedCoop<FM::CooperativeThompsonModel>(rng, "src/Factored/MDP/CooperativeThompsonModel.cpp", "CooperativeThompsonModel", false);
+}
+
 // ------------------------------------------------------------------------------------------ conversion chains
 // one converting-constructor call  Target(src)  as a `ctor … copy` line; returns the object (null when rejected)
 template <class Target, class Src> static std::unique_ptr<Target> convertLine(const Src & src) {
@@ -641,7 +716,7 @@ void verif_case(Rng & rng, long idx, const std::string & tier) {
     if (idx == 4) { discCase(rng); return; }
     if (idx == 5) { bigRowCase(); return; }
     switch (idx % 16) {
-        case 0: isprobCase(rng); break;
+        case 0: isprobCase(rng); learnedCase(rng); break;
         case 1: amdpCase<false>(rng, idx); break;
         case 2: amdpCase<true>(rng, idx); break;
         case 3: pushCase(rng); pushCase(rng); break;
